@@ -111,9 +111,92 @@ class ExprMixin:
     def ev_JoinedStr(self, e, st, fr):
         return [(st, Unknown(ty="str"))]
 
+    # comprehensions are desugared into the equivalent statement loop (cached per node so node identities stay stable) and run in the
+    # current frame; the loop variables are restored afterwards (comprehension scope)
+    _comp_cache = {}
+
+    def _comp_loop(self, e, leaf):
+        """nested for/if statements of comprehension e around the statement list `leaf`"""
+        body = leaf
+        for g in reversed(e.generators):
+            if g.is_async:
+                return None
+            for c in reversed(g.ifs):
+                body = [ast.If(test=c, body=body, orelse=[])]
+            body = [ast.For(target=g.target, iter=g.iter, body=body, orelse=[], type_comment=None)]
+        return body
+
+    def _run_comp(self, e, stmts, st, fr, acc_name=None):
+        targets = set()
+        for g in e.generators:
+            for x in ast.walk(g.target):
+                if isinstance(x, ast.Name):
+                    targets.add(x.id)
+        env0 = st.envs[fr.fid]
+        saved = {nm: env0[nm] for nm in targets if nm in env0}
+        out = []
+        for kind, s, v in self.exec_block(stmts, st, fr):
+            env = s.envs.get(fr.fid)
+            res = None
+            if env is not None:
+                for nm in targets:
+                    env.pop(nm, None)
+                env.update(saved)
+                if acc_name is not None:
+                    res = env.pop(acc_name, None)
+            if kind == "raise":
+                out.append((s, v))
+            elif kind == "return":
+                out.append((s, v))
+            elif kind == "next":
+                out.append((s, res if res is not None else Const(None)))
+            elif kind == "cut":
+                self.cuts += 1
+            else:
+                raise AnalysisError("break/continue escaped a comprehension in %s" % fr.func.qualname)
+        return out
+
     def ev_ListComp(self, e, st, fr):
-        # comprehension results are only used for printing / table building
-        return [(st, st.alloc("list", items=[], opaque=True))]
+        key = id(e)
+        if key not in self._comp_cache:
+            acc = "%comp" + str(len(self._comp_cache))
+            app = ast.Expr(value=ast.Call(func=ast.Attribute(value=ast.Name(id=acc, ctx=ast.Load()), attr="append", ctx=ast.Load()), args=[e.elt], keywords=[]))
+            loop = self._comp_loop(e, [app])
+            if loop is not None:
+                init = ast.Assign(targets=[ast.Name(id=acc, ctx=ast.Store())], value=ast.List(elts=[], ctx=ast.Load()), type_comment=None)
+                stmts = [init] + loop
+                for s_ in stmts:
+                    ast.copy_location(s_, e)
+                    ast.fix_missing_locations(s_)
+                self._comp_cache[key] = (e, stmts, acc)
+            else:
+                self._comp_cache[key] = (e, None, None)
+        _e, stmts, acc = self._comp_cache[key]
+        if stmts is None:
+            return [(st, st.alloc("list", items=[], opaque=True))]
+        return self._run_comp(e, stmts, st, fr, acc)
+
+    ev_GeneratorExp = ev_ListComp      # a generator is approximated by its eagerly built list (the package only feeds them to consumers at once)
+
+    def ev_quantifier(self, call, is_any, st, fr):
+        """any(<genexp>) / all(<genexp>): the short-circuit loop `for ..: if [not] elt: return True/False` + `return False/True`"""
+        e = call.args[0]
+        key = (id(e), is_any)
+        if key not in self._comp_cache:
+            test = e.elt if is_any else ast.UnaryOp(op=ast.Not(), operand=e.elt)
+            hit = ast.If(test=test, body=[ast.Return(value=ast.Constant(value=bool(is_any)))], orelse=[])
+            loop = self._comp_loop(e, [hit])
+            stmts = None
+            if loop is not None:
+                stmts = loop + [ast.Return(value=ast.Constant(value=not is_any))]
+                for s_ in stmts:
+                    ast.copy_location(s_, call)
+                    ast.fix_missing_locations(s_)
+            self._comp_cache[key] = (e, stmts, None)
+        stmts = self._comp_cache[key][1]
+        if stmts is None:
+            return [(st, Unknown(ty="bool"))]
+        return self._run_comp(e, stmts, st, fr)
 
     def ev_IfExp(self, e, st, fr):
         out = []
@@ -136,23 +219,24 @@ class ExprMixin:
                     continue
                 t = self.truth(v, s1, fr)
                 if t is None:
-                    sa, sb = s1, s1.fork()
-                    self.event(sa, fr, "cond", e.values[i], (True, v))
-                    self.refine(e.values[i], True, sa, fr)
-                    self.event(sb, fr, "cond", e.values[i], (False, v))
-                    self.refine(e.values[i], False, sb, fr)
-                    self.budget()
+                    (sa, _t), (sb, _f) = self.decide(e.values[i], None, s1, fr, True, v)
                     if is_and:
                         work.append((sa, i + 1))
                         outs.append((sb, self.falsy_of(v)))
                     else:
-                        outs.append((sa, v))
+                        outs.append((sa, self.truthy_of(v)))
                         work.append((sb, i + 1))
                 elif t == is_and:
                     work.append((s1, i + 1))
                 else:
                     outs.append((s1, v))
         return outs
+
+    @staticmethod
+    def truthy_of(v):
+        if isinstance(v, (Sym, Unknown)) and v.ty == "bool":
+            return Const(True)
+        return v
 
     @staticmethod
     def falsy_of(v):
@@ -207,8 +291,18 @@ class ExprMixin:
         return out
 
     # ------------------------------------------------------------ operators
+    @staticmethod
+    def bool_as_bit(v):
+        """a boolean that stands for an undecided comparison, used as a number: one bit that may depend on the operands"""
+        if isinstance(v, Unknown) and v.ty == "bool" and v.cmp is not None:
+            d = set()
+            for x in v.cmp[1]:
+                d |= deps_of(norm(x)) if hasattr(x, "key") else set()
+            return BitV((("m", frozenset(d or v.deps or {("unknown",)})),) + (0,) * (NBITS - 1), 0, (0, 1))
+        return v
+
     def binop(self, op, a, b, st, fr=None, node=None):
-        a, b = norm(a), norm(b)
+        a, b = self.bool_as_bit(norm(a)), self.bool_as_bit(norm(b))
         # string formatting
         if isinstance(op, ast.Mod) and (ty_of(a) == "str"):
             return Unknown(ty="str")
@@ -462,7 +556,11 @@ class ExprMixin:
             if isinstance(t, Raised):
                 out.append((s, t))
             elif t is None:
-                out.append((s, self._last_unknown))
+                lu = self._last_unknown
+                lc = self._last_cmp
+                if len(e.ops) == 1 and lc is not None and lc[0] is e:
+                    lu = Unknown(lu.deps, ty="bool", cmp=(e, lc[1], False, fr.fid))
+                out.append((s, lu))
             else:
                 out.append((s, Const(bool(t))))
         return out
@@ -613,8 +711,15 @@ class ExprMixin:
             for s, t in self.branch(test.operand, st, fr, record):
                 if t is None:
                     ov = self._last_unknown
-                    self._last_unknown_not = Unknown(deps_of(ov), ty="bool")
+                    lc = self._last_cmp
+                    c_ = None
+                    if isinstance(ov, Unknown) and ov.cmp is not None:
+                        c_ = (ov.cmp[0], ov.cmp[1], not ov.cmp[2], ov.cmp[3])
+                    elif lc is not None and lc[0] is test.operand and len(test.operand.ops) == 1:
+                        c_ = (lc[0], lc[1], True, fr.fid)
+                    self._last_unknown_not = Unknown(deps_of(ov), ty="bool", cmp=c_)
                     self._last_unknown = self._last_unknown_not
+                    self._last_cmp = None
                 res.append((s, t if isinstance(t, Raised) or t is None else (not t)))
             return res
         if isinstance(test, ast.Compare) and len(test.ops) > 1:
@@ -664,6 +769,18 @@ class ExprMixin:
 
     _last_unknown = Unknown(ty="bool")
     _last_unknown_not = Unknown(ty="bool")
+    _last_cmp = None
+
+    def compare_now(self, op, a, b, st, fr):
+        """compare() plus what the truth facts (non-zero / zero sets, ranges) say about `x != 0` / `x == 0`"""
+        r = self.compare(op, a, b, st)
+        if r is None and isinstance(op, (ast.Eq, ast.NotEq)):
+            for x, y in ((a, b), (b, a)):
+                if isinstance(norm(y), Const) and norm(y).v == 0 and not isinstance(norm(y).v, bool):
+                    t = self.truth(x, st, fr)
+                    if t is not None:
+                        return t if isinstance(op, ast.NotEq) else (not t)
+        return r
 
     def decide(self, node, t, st, fr, record, val):
         if t is not None:
@@ -676,9 +793,27 @@ class ExprMixin:
         self._last_unknown = Unknown(d, ty="bool")
         if not record:
             self.event(st, fr, "cmp", node, (None, val))
+            self._last_cmp = (node, val) if isinstance(node, ast.Compare) and isinstance(val, tuple) and len(val) == 2 else None
+            if isinstance(val, Unknown) and val.cmp is not None:
+                self._last_unknown = val
             return [(st, None)]
+        dv = norm(val) if not isinstance(val, tuple) else None
+        if isinstance(dv, Unknown) and dv.cmp is not None:
+            # the boolean stands for an earlier, still undecided comparison: decide that comparison now
+            cnode, cvals, neg, fid = dv.cmp
+            t2 = self.compare_now(cnode.ops[0], cvals[0], cvals[1], st, fr)
+            if t2 is not None:          # what was learned since then already settles it: no fork
+                pol = (t2 != neg)
+                self.event(st, fr, "known", cnode, (t2, cvals))
+                self.event(st, fr, "known", node, (pol, val))
+                self.refine(node, pol, st, fr, val)
+                return [(st, pol)]
         sa, sb = st, st.fork()
         self.budget()
+        if isinstance(dv, Unknown) and dv.cmp is not None:
+            for s_, pol in ((sa, True), (sb, False)):
+                self.event(s_, fr, "cond", cnode, (pol != neg, cvals))
+                self.refine_deferred(cnode, pol != neg, s_, fr, cvals, fid)
         self.event(sa, fr, "cond", node, (True, val))
         self.refine(node, True, sa, fr, val)
         self.event(sb, fr, "cond", node, (False, val))
